@@ -53,6 +53,7 @@ type c14World struct {
 	endedBeforeExec                           bool
 	commitFails, rollbackFails                bool
 	failAt                                    int // index of the statement that fails (-1: none)
+	cancelDuringBody func() // cancels the caller's context at the end of a successful body (nil: never)
 }
 
 type c14Tx struct {
@@ -89,6 +90,7 @@ func (t c14Tx) ExecCtx(ctx context.Context, q string, args ...any) (sql.Result, 
 }
 
 // c14Scenario draws every fault flag symbolically and returns the world, the beginnable and the body.
+// c14Scenario: see the entry docs.
 func c14Scenario() (*c14World, beginnable, func(context.Context, Session) error, int, int) {
 	w := &c14World{failAt: -1}
 	errs := c14Errors()
@@ -97,7 +99,7 @@ func c14Scenario() (*c14World, beginnable, func(context.Context, Session) error,
 	w.commitFails = rt.Bool("commitFails")
 	w.rollbackFails = rt.Bool("rollbackFails")
 	nStmts := rt.Choose("statements", 4)       // 0..3 statements in the body
-	outcome := rt.Choose("bodyOutcome", 4)      // 0 ok, 1 return error, 2 panic(error), 3 panic(string)
+	outcome := rt.Choose("bodyOutcome", 6)      // 0 ok, 1 return error, 2 panic(error), 3 panic(string), 4 panic(int), 5 panic(struct)
 	after := rt.Choose("faultAfter", nStmts+1)  // body error / panic happens after this many statements
 	if rt.Bool("stmtFails") && nStmts > 0 {
 		w.failAt = rt.Choose("failAt", nStmts)
@@ -126,6 +128,13 @@ func c14Scenario() (*c14World, beginnable, func(context.Context, Session) error,
 			panic(w.userErr)
 		case 3:
 			panic("c14: body panicked")
+		case 4:
+			panic(42)
+		case 5:
+			panic(struct{ code int }{7})
+		}
+		if w.cancelDuringBody != nil {
+			w.cancelDuringBody() // the caller gives up while the body is finishing; the body itself succeeded
 		}
 		return nil
 	}
@@ -168,15 +177,21 @@ func c14Check(w *c14World, err error, escaped bool, outcome int) {
 	}
 }
 
-//verif:entry native tier=quick,thorough cover=beginFailed,commitFailed,rollbackFailed,panicked
-//verif:doc body of 0..3 statements; fault flags (begin/commit/rollback fail, statement j fails, body returns error or panics with an error or a string after j statements) all symbolic.
+//verif:entry native tier=quick,thorough cover=beginFailed,commitFailed,rollbackFailed,panicked,ctxdone
+//verif:doc body of 0..3 statements; fault flags (begin/commit/rollback fail, statement j fails, body returns error or panics with an error, a string, an int or a struct value after j statements) all symbolic; optionally the caller's context is cancelled at the very end of a successful body (the outcome is still decided by the body: Commit, and nil only if it succeeded).
 func Verif_C14_TransactOnConn() {
 	w, b, body, outcome, _ := c14Scenario()
+	ctx := context.Background()
+	if rt.Bool("callerGivesUpDuringBody") {
+		c, cancel := context.WithCancel(ctx)
+		ctx, w.cancelDuringBody = c, cancel
+		rt.Cover("ctxdone")
+	}
 	var err error
 	escaped := true
 	func() {
 		defer func() { recover() }()
-		err = transactOnConn(context.Background(), nil, b, body)
+		err = transactOnConn(ctx, nil, b, body)
 		escaped = false
 	}()
 	c14Check(w, err, escaped, outcome)
